@@ -19,7 +19,7 @@ import zlib
 import env
 import resp
 from core import cstr, cbool, cz, copt, clist
-from saml2_tophat import md, saml, samlp, sigver, class_name
+from saml2_tophat import md, saml, samlp, sigver, class_name, ExtensionElement
 from saml2_tophat import BINDING_HTTP_POST, BINDING_HTTP_REDIRECT, BINDING_SOAP, BINDING_URI, BINDING_HTTP_ARTIFACT
 from saml2_tophat.config import SPConfig, IdPConfig
 
@@ -430,6 +430,13 @@ def build_request(r):
                 issue_instant=None if r["instant_absent"] else instant(NOW + r["dt"], r["spelling"]),
                 destination=r["destination"],
                 issuer=saml.Issuer(text=r["issuer"]) if r["issuer"] is not None else None)
+    if r.get("ext_ids"):
+        # samlp:Extensions (part of the signed content) whose children carry ID attributes: elements of ANOTHER name
+        # than the request carrying an ID - possibly the request's own (the pre-check counts carriers of any name)
+        def note(ids):
+            return ExtensionElement("Note", namespace="urn:example:ext", attributes={"ID": ids[0]}, text=None if ids[1:] else "n",
+                                    children=[note(ids[1:])] if ids[1:] else None)
+        base["extensions"] = samlp.Extensions(extension_elements=[note(list(i)) if isinstance(i, (list, tuple)) else note([i]) for i in r["ext_ids"]])
     k = r["kind"]
     if k == "authn":
         return samlp.AuthnRequest(assertion_consumer_service_url=S + "/acs/" + r["marker"], **base)
